@@ -185,7 +185,7 @@ def gen_rhs(rng, w, t, tc, shape, scalar):
     m, n = shape
     if r < 0.55:
         k = m * n if rng.random() < 0.93 else m * n + 1
-        return {'k': 'list', 'v': [mkval(vt, rng) for _ in range(k)]}
+        return {'k': 'list', 'v': [mkval(vt, rng) for _ in range(k)], 'form': rng.choice(['list', 'list', 'tuple'])}
     if r < 0.9:
         if rng.random() < 0.05:
             m += 1
@@ -300,7 +300,8 @@ def gen_derive(rng, w, t):
         vt = rng.choice(['i', 'd', 'z'])
         mm, nn = rng.randint(0, 3), rng.randint(0, 3)
         cnt = mm * nn if rng.random() < 0.9 else mm * nn + 1
-        return ['derive', nm, 'fromlist', t, {'k': 'list', 'v': [mkval(vt, rng) for _ in range(cnt)]}, [mm, nn], rng.choice([None, None, 'i', 'd', 'z'])]
+        form = rng.choice(['list', 'list', 'tuple', 'nosize'])
+        return ['derive', nm, 'fromlist', t, {'k': 'list', 'v': [mkval(vt, rng) for _ in range(cnt)]}, [mm, nn], rng.choice([None, None, 'i', 'd', 'z']), form]
     if kind in ('vstack', 'hstack'):
         cands = [k for k in names if (w.o(k)['M'].n == n if kind == 'vstack' else w.o(k)['M'].m == m)]
         other = rng.choice(cands) if cands and rng.random() < 0.9 else rng.choice(names)
@@ -396,7 +397,7 @@ def operand(w, spec):
         return v, v
     if k == 'list':
         v = [lit(x) for x in spec['v']]
-        return v, list(v)
+        return (tuple(v) if spec.get('form') == 'tuple' else v), list(v)
     if k == 'ref':
         e = w.o(spec['name'])
         return e['X'], e['M']
@@ -588,10 +589,16 @@ def apply(op, w, stats):
         if dk == 'fromlist':
             vals = [lit(x) for x in op[4]['v']]
             sh, tcx = tuple(op[5]), op[6]
-            if tcx is None:
-                fr, fm = (lambda: matrix(vals, sh)), (lambda: MDL.fromlist(vals, sh[0], sh[1], None))
+            form = op[7] if len(op) > 7 else 'list'
+            seq = tuple(vals) if form == 'tuple' else vals
+            if form == 'nosize':
+                # a sequence of numbers without a size is a column vector
+                kw_ = {'tc': tcx} if tcx is not None else {}
+                fr, fm = (lambda: matrix(seq, **kw_)), (lambda: MDL.fromlist(vals, len(vals), 1, tcx))
+            elif tcx is None:
+                fr, fm = (lambda: matrix(seq, sh)), (lambda: MDL.fromlist(vals, sh[0], sh[1], None))
             else:
-                fr, fm = (lambda: matrix(vals, sh, tcx)), (lambda: MDL.fromlist(vals, sh[0], sh[1], tcx))
+                fr, fm = (lambda: matrix(seq, sh, tcx)), (lambda: MDL.fromlist(vals, sh[0], sh[1], tcx))
         elif dk in ('ediv', 'emax', 'emin', 'vstack', 'hstack'):
             import cvxopt
             o = w.o(op[4])
